@@ -92,7 +92,7 @@ func newSigKey(seed uint64, name string, alg keys.Algorithm) *sigKey {
 // sign produces the signature a client holding the key would produce over msg, with the
 // LIBRARIES directly (not with data/keys' private-key handlers): ed25519 and secp256k1 as
 // tendermint defines them, ETHSECP = go-ethereum over a 32-byte digest, BTCEC = ECDSA over
-// SHA-256(msg), DER encoded.
+// SHA-256(SHA-256(msg)), DER encoded.
 func (k *sigKey) sign(msg []byte) []byte {
 	var s []byte
 	var err error
@@ -116,9 +116,8 @@ func (k *sigKey) sign(msg []byte) []byte {
 		}
 	case keys.BTCECSECP:
 		priv, _ := btcec.PrivKeyFromBytes(btcec.S256(), k.raw)
-		h := sha256.Sum256(msg)
 		var ds *btcec.Signature
-		if ds, err = priv.Sign(h[:]); err == nil {
+		if ds, err = priv.Sign(btcecDigest(msg)); err == nil {
 			s = ds.Serialize()
 		}
 	}
@@ -202,7 +201,7 @@ func primAddr(pk keys.PublicKey) ([]byte, bool) {
 }
 
 // primVerify: does sig verify over msg under pk, by the underlying library alone. BTCEC is
-// DEFINED here independently of the handler: ECDSA over SHA-256(msg), DER encoded (an earlier
+// DEFINED here independently of the handler: ECDSA over the double SHA-256 of msg, DER encoded (an earlier
 // version of this oracle copied the handler, which handed msg to ECDSA as a digest — cut to 32
 // bytes — and so mirrored the defect repaired in /repo b2b7e17).
 func primVerify(pk keys.PublicKey, msg, sig []byte) (ok bool) {
@@ -271,10 +270,19 @@ func primVerify(pk keys.PublicKey, msg, sig []byte) (ok bool) {
 		if !bytes.Equal(ds.Serialize(), sig) {
 			return false
 		}
-		h := sha256.Sum256(msg)
-		return ds.Verify(h[:], p)
+		return ds.Verify(btcecDigest(msg), p)
 	}
 	return false
+}
+
+// btcecDigest: a BTCEC key signs the double SHA-256 of the message (Bitcoin's digest), NOT the
+// single SHA-256 a SECP256K1 key signs: both algorithms take the same 33 key bytes and give the
+// same address, so with one digest a signature entry of either kind could be re-spelled as the
+// other (replay class 13 of the C05 engine found exactly that on the unchanged tree).
+func btcecDigest(msg []byte) []byte {
+	a := sha256.Sum256(msg)
+	b := sha256.Sum256(a[:])
+	return b[:]
 }
 
 func hexTok(b []byte) string {
